@@ -273,16 +273,23 @@ PROPS = {
     },
     "C10": {
         "targets": ["spowtd.load:populate_grid_time", "spowtd.load:populate_rainfall_intensity",
-                    "spowtd.load:populate_evapotranspiration"],
+                    "spowtd.load:populate_evapotranspiration", "spowtd.load:populate_water_level"],
         "bounded": [{"run": "bounded.load_checks:run_C10",
-                     "what": "bounded stand-in for populate_water_level and the table level: real load_data on generated files (water level "
-                             "on the same / a different step than rainfall, aligned or not, single and double gaps, shuffled rows): grid, "
-                             "rainfall / ET copies, interpolated water levels, nothing strictly inside a gap, distinct labels per stretch"}],
+                     "what": "table level (validation of the SQL / np.interp contracts and stand-in for the glue in load_data): real "
+                             "load_data on generated files (water level on the same / a different step than rainfall, aligned or not, "
+                             "single and double gaps, short gaps of 1.25-2 x the minimal step with a grid instant inside, shuffled rows): "
+                             "grid, rainfall / ET copies, interpolated water levels, nothing strictly inside a gap, distinct labels per stretch"}],
         "level_text": "Unbounded proof that populate_grid_time returns the staged rainfall instants within the water-level span plus one "
                       "closing instant, uniformly spaced with a positive step, and reaches its refusal only for fewer than two instants or "
-                      "unequal steps. The interpolation / gap / label logic of populate_water_level (np.interp, flattening of gap pairs, "
-                      "mask assignments) is a bounded stand-in in this revision.",
-        "level_note": "SQL statements enter through assumed contracts (row order of the staging tables = rowid order is one of them).",
+                      "unequal steps; and that populate_water_level leaves a grid instant without label exactly when it lies strictly "
+                      "inside a gap of the source record (a source step other than the minimal one), gives two labelled instants the same "
+                      "label exactly when no gap separates them, writes the label updates for the labelled instants in order, and writes "
+                      "one water level for every labelled instant before the closing one, equal to the straight-line interpolation "
+                      "between two adjacent source measurements that bracket it (loop invariant over the stretches with a ghost map "
+                      "instant -> stretch; np.interp through an assumed contract). The glue of load_data (csv reading, call order) is "
+                      "covered by the table-level stand-in.",
+        "level_note": "SQL statements enter through assumed contracts (row order of the staging tables = rowid order = epoch order is one "
+                      "of them); np.interp is an assumed contract (piecewise-linear interpolant, needs increasing abscissae: an obligation).",
     },
     "C11": {
         "targets": ["spowtd.load:generate_timestamped_rows", "spowtd.load:populate_grid_time",
